@@ -671,8 +671,23 @@ var errBestEffort = map[string]string{
 	"trzszTransfer.resetTerm":   "terminal restore is best effort",
 }
 
+// errTestContinues: tested errors whose non-nil edge legitimately continues (one line of reason each).
+var errTestContinues = map[string]string{}
+
 func c02ErrorDiscipline(c *Ctx) {
 	roots := []*ssa.Function{c.fn("trzszTransfer.sendFiles"), c.fn("trzszTransfer.recvFiles")}
+	// the handshake and exit exchanges, and the JSON hooks the decoder calls reflectively
+	for _, n := range []string{"sendAction", "recvAction", "sendConfig", "recvConfig", "clientExit", "recvExit", "serverExit"} {
+		roots = append(roots, c.fn("trzszTransfer."+n))
+	}
+	for _, f := range c.AllFns {
+		if f.Signature.Recv() != nil && c.inPkg(f) {
+			switch f.Name() {
+			case "UnmarshalJSON", "UnmarshalText", "MarshalJSON", "MarshalText":
+				roots = append(roots, f)
+			}
+		}
+	}
 	reach := c.reachableFrom(roots...)
 	nCalls := 0
 	for _, f := range c.AllFns {
@@ -701,7 +716,25 @@ func c02ErrorDiscipline(c *Ctx) {
 					}
 				}
 			}
-			if !tracked || errIndex(call.Call.Signature()) < 0 {
+			if errIndex(call.Call.Signature()) < 0 {
+				return
+			}
+			if !tracked {
+				// any other error-returning call: not required to be consumed (bytes.Buffer writes, best-effort
+				// closes), but where its error IS tested the non-nil edge must fail like everywhere else.
+				// ctx.Err() is not an error of this call chain (C11-R3 covers how a cancelled stage exits).
+				if id == "invoke context.Context.Err" || errTestContinues[fname+"/"+id] != "" {
+					return
+				}
+				u := classifyErrUse(errorValueOf(call))
+				for _, t := range u.tests {
+					c.sites++
+					if okE, why := failEdge(c, t.Block(), nonNilEdge(t)); !okE {
+						c.bad(fname+"/"+id+".err-edge", c.ipos(t), "the non-nil edge of the error test does not end in an error return / cancel: "+why)
+					} else {
+						c.ok(fname+"/"+id+".err-edge", c.ipos(t), "the non-nil edge of the error test fails")
+					}
+				}
 				return
 			}
 			nCalls++
